@@ -78,7 +78,7 @@ per_count("opt_setnint", entry="h_opt_setnint", func="cfg_opt_setnint", harness=
           props=["C09", "C10", "C18", "C02"], cost=30, **CF)
 per_count("opt_setnfloat_bool", entry="h_opt_setnfloat_bool", func="cfg_opt_setnfloat, cfg_opt_setnbool", harness="harness/store.c", cbmc=unw(6) + OOM,
           label=FLAGTXT, props=["C09", "C10", "C18", "C02"], cost=40, **CF)
-per_count("opt_setnstr", entry="h_opt_setnstr", func="cfg_opt_setnstr", harness="harness/store.c", cbmc=unw(6) + OOM, label=FLAGTXT + "; strings <= 2 bytes",
+per_count("opt_setnstr", entry="h_opt_setnstr", func="cfg_opt_setnstr", harness="harness/store.c", cbmc=unw(6) + OOM, label=FLAGTXT + "; strings <= 2 bytes", replay="replay/store_str.c",
           props=["C09", "C10", "C18", "C16", "C02"], cost=60, **CF)
 U("opt_setcomment", entry="h_opt_setcomment", func="cfg_opt_setcomment", harness="harness/store.c", defs={"quick": ["-DNV=2"]}, cbmc=unw(6) + OOM + LEAK,
   label="bounded(annotation <= 2 bytes)", props=["C15", "C18", "C07", "C16", "C02"], cost=10, **CF)
@@ -102,7 +102,7 @@ per_count("setnint_byname", counts_quick=(0, 1), counts_thorough=(0, 1, 2), entr
           cbmc=unw(6) + OOM, label=FLAGTXT, props=["C14", "C10", "C09", "C02"], cost=20, **CFG)
 per_count("getters", entry="h_getters", func="cfg_opt_getnint/float/bool/str/ptr/nsec, cfg_opt_size, cfg_opt_getcomment, cfg_opt_name", harness="harness/store2.c", cbmc=unw(6) + NOOOM,
           label="5 option types, default marker set / clear, any index", props=["C01", "C09", "C02"], cost=20, **CF)
-U("setnstr_byname", entry="h_setnstr_byname", func="cfg_setnstr", harness="harness/store2.c", defs={"quick": ["-DNV=2"]}, cbmc=unw(6) + OOM,
+U("setnstr_byname", entry="h_setnstr_byname", func="cfg_setnstr", harness="harness/store2.c", defs={"quick": ["-DNV=2"]}, cbmc=unw(6) + OOM, replay="replay/store_str.c",
   label="bounded(one value, strings <= 2 bytes)", props=["C14", "C10", "C02"], cost=10, **CFG)
 U("setnfloat_byname", entry="h_setnfloat_byname", func="cfg_setnfloat", harness="harness/store2.c", defs={"quick": ["-DNV=2"]}, cbmc=unw(6) + OOM,
   label="proof (loop-free for one value)", props=["C14", "C10", "C02"], cost=10, **CFG)
